@@ -3,7 +3,7 @@ import cmd
 from functools import wraps
 from pyparsing.exceptions import ParseException
 from qbee.stmt import Block
-from qbee.exceptions import InternalError, SyntaxError
+from qbee.exceptions import InternalError, SyntaxError, CompileError
 from qbee import grammar
 from .module import QModule
 from .machine import QvmMachine
@@ -535,6 +535,10 @@ Type help or ? to list commands.
             value = tree.eval()
         except EvalError as e:
             print('Eval error:', e)
+            return
+        except (CompileError, ArithmeticError, ValueError) as e:
+            # ill-typed expression, overflow, division by zero...
+            print('Eval error:', str(e) or type(e).__name__)
             return
 
         print(value)
